@@ -1027,6 +1027,9 @@ func (ex *Exec) runDefers(r Term) {
 		case strings.HasSuffix(name, "sync.Mutex).Unlock"), strings.HasSuffix(name, "sync.Mutex).Lock"):
 			continue
 		case d.Call.Value != nil && d.Call.Value.Name() == "close":
+			// closing a channel has no effect on modelled state, but it can
+			// be counted (`ghost n counts close`)
+			ex.bumpGhosts(name)
 			continue
 		}
 		// other deferred calls are executed here; go/ssa places RunDefers on
